@@ -648,8 +648,19 @@ func Check(specPath string, opt Options) int {
 
 	// ---- reach markers (vacuity guard)
 	reach := run.Reach()
+	anyTruncated := false
+	for _, j := range jobs {
+		if j.Truncated {
+			anyTruncated = true
+		}
+	}
 	for _, l := range sp.Reach {
 		if reach[l] == 0 && opt.OnlyJob == "" {
+			if anyTruncated {
+				// the time budget cut the exploration short: not evidence of a vacuous harness
+				fmt.Println("  note: reach marker not hit before the time budget ran out:", l)
+				continue
+			}
 			broken = append(broken, "reach marker never hit (vacuous harness?): "+l)
 		}
 	}
